@@ -154,16 +154,11 @@ Qed.
 
 (* the recipient of a deletion relayed by a departure is another member of the leaver's session, the entity
    existed there, and is gone from what the departure leaves behind *)
-Record del_source (st st' : state) (c x eid : N) : Prop := {
-  ds_sid : N; ds_p : N; ds_q : N; ds_SS : session; ds_SS' : session;
-  ds_cur : cur_of st c = Some (ds_sid, ds_p);
-  ds_sess : sessions st !! ds_sid = Some ds_SS;
-  ds_part : s_parts ds_SS !! ds_q = Some x;
-  ds_ne : ds_q ≠ ds_p;
-  ds_was : is_Some (s_ents ds_SS !! eid);
-  ds_after : sessions st' !! ds_sid = Some ds_SS';
-  ds_gone : s_ents ds_SS' !! eid = None
-}.
+Inductive del_source (st st' : state) (c x eid : N) : Prop :=
+| Build_del_source (sid p q : N) (SS SS' : session) :
+    cur_of st c = Some (sid, p) → sessions st !! sid = Some SS → s_parts SS !! q = Some x → q ≠ p →
+    is_Some (s_ents SS !! eid) → sessions st' !! sid = Some SS' → s_ents SS' !! eid = None →
+    del_source st st' c x eid.
 
 Lemma leave_deletes cfg st c x o eid :
   inv st → (x, MEntityDeleteB o eid) ∈ (leave cfg st c).2 → del_source st (leave cfg st c).1 c x eid.
@@ -253,14 +248,364 @@ Proof.
     { injection Eh as <- <- <-. apply elem_of_list_singleton in Hin. done. }
     injection Eh as <- <- <-. split; [done|]. apply elem_of_cons in Hin as [[= ? ?]|Hin].
     destruct (flag_on cfg F_ENTITY_DELETE_B); [by apply elem_of_nil in Hin|].
-    apply broadcast_spec in Hin as ([= -> ->]&q&Hq&Hne). simpl in Hq.
+    apply broadcast_spec in Hin as ([= <- <-]&q&Hq&Hne). simpl in Hq.
     set (S1 := set_ents (delete eid) (set_store (store_delete_entity eid) SS)).
     destruct (cleanup_modules_fields cfg eid S1) as (_&_&_&_&_&Hents&_).
-    eapply (Build_del_source st _ c x eid sid p q SS (cleanup_modules cfg eid S1)); try done.
-    + unfold cur_of. by rewrite Hc.
-    + by rewrite He.
-    + simpl. by rewrite lookup_insert.
-    + rewrite Hents. simpl. by rewrite lookup_delete.
+    apply (Build_del_source st _ c x eid sid p q SS (cleanup_modules cfg eid S1));
+      [unfold cur_of; by rewrite Hc|done|done|done|by rewrite He|simpl; by rewrite lookup_insert|].
+    rewrite Hents. simpl. by rewrite lookup_delete.
   - destruct (is_join r) eqn:Hj. { destruct r; try discriminate Hj. by eapply Hjoin. }
     exfalso. revert Hin. apply nodel_elem. by eapply handle_unjoined_nodel.
 Qed.
+
+Lemma del_source_src st0 st st' c x eid :
+  cur_of st0 c = cur_of st c → sessions st0 = sessions st → del_source st0 st' c x eid → del_source st st' c x eid.
+Proof. intros H1 H2 [sid p q SS SS' D1 D2 D3 D4 D5 D6 D7]. eapply Build_del_source; try done; congruence. Qed.
+
+Lemma disconnect_deletes cfg st c x o eid :
+  inv st → (x, MEntityDeleteB o eid) ∈ (disconnect cfg st c).2 → del_source st (disconnect cfg st c).1 c x eid.
+Proof.
+  intros I Hin. destruct (disconnect_is_leave cfg st c) as [E1 E2]. rewrite E1 in Hin.
+  eapply del_source_ext; [|by apply (leave_deletes cfg st c x o eid)]. intros sid. by rewrite E2.
+Qed.
+
+(* every relayed deletion of a step has such a source, with the acting connection as the leaver / deleter *)
+Lemma step_deletes cfg st o k x od eid :
+  inv st → bounded k st → k + 1 < two32 →
+  (x, MEntityDeleteB od eid) ∈ (step cfg st o).1.2 →
+  ∃ c, actor (ev_of st o (step cfg st o)) = Some c ∧ del_source st (step cfg st o).1.1 c x eid.
+Proof.
+  intros I B Hk. pose proof (bounded_nowrap _ _ B Hk) as W.
+  destruct o as [c|c r|c hint|sid|c|]; unfold ev_of, actor; cbn [step ev_op].
+  - destruct (conns st !! c); by intros ?%elem_of_nil.
+  - unfold dispatch. destruct (conns st !! c) as [cn|] eqn:Hc; [|by intros ?%elem_of_nil].
+    destruct (c_open cn); [|by intros ?%elem_of_nil]. cbn [negb].
+    destruct r; try (by intros ?%elem_of_nil). destruct (ty =? 14); [|by intros ?%elem_of_nil].
+    pose proof (disconnect_deletes cfg st c x od eid I) as HD. destruct (disconnect cfg st c) as [st1 o1]. cbn [fst snd] in *.
+    intros Hin. exists c. split; [done|by apply HD].
+  - destruct (conns st !! c) as [cn|] eqn:Hc; [|by intros ?%elem_of_nil].
+    destruct (c_open cn) eqn:Ho; [|by intros ?%elem_of_nil]. cbn [negb].
+    destruct (c_queue cn) as [|r q] eqn:Hq; [by intros ?%elem_of_nil|].
+    set (st0 := upd_conn c (set_queue q) st).
+    assert (Hs0 : same_mem st st0) by (apply same_mem_upd_conn; by intros []).
+    assert (I0 : inv st0) by by eapply inv_same_mem.
+    assert (B0 : bounded k st0) by by eapply bounded_same_mem.
+    assert (W0 : nowrap st0) by by eapply bounded_nowrap.
+    assert (Hc0 : conns st0 !! c = Some (set_queue q cn)) by (unfold st0; by rewrite conns_upd_conn_eq, Hc).
+    assert (Hcur0 : cur_of st0 c = cur_of st c) by (by destruct Hs0 as (H1&_)).
+    assert (Ho0 : open_of st0 c = Some true).
+    { destruct Hs0 as (_&H2&_). rewrite H2. unfold open_of. by rewrite Hc; simpl; rewrite Ho. }
+    pose proof (handle_deletes cfg st0 c (set_queue q cn) r hint) as HD.
+    destruct (handle_inv cfg st0 c r hint k I0 B0 Hk Ho0) as [I1 _].
+    destruct (handle cfg st0 c r hint) as [[st1 o1] v] eqn:Eh. cbn [fst snd] in *.
+    assert (Hok : (x, MEntityDeleteB od eid) ∈ o1 → v = VOk ∧ del_source st st1 c x eid).
+    { intros Hin. destruct (HD st1 o1 v x od eid I0 W0 Hc0 eq_refl Hin) as [Hv D]. split; [done|].
+      by eapply del_source_src. }
+    destruct v; cbn [fst snd]; try (intros Hin; exists c; split; [done|]; by apply Hok).
+    pose proof (disconnect_deletes cfg st1 c x od eid I1) as HD2.
+    destruct (disconnect cfg st1 c) as [st2 o2]. cbn [fst snd] in *.
+    intros [Hin|Hin]%elem_of_app; [by destruct (Hok Hin)|].
+    exists c. split; [done|].
+    assert (Hj : is_join r = false).
+    { destruct (is_join r) eqn:Hj; [|done]. exfalso. destruct r; try discriminate Hj.
+      unfold handle in Eh. rewrite Hc0 in Eh. pose proof (join_verdict cfg st0 c _ rid sid ots hint Hc0) as Hv.
+      destruct (c_cur (set_queue q cn)) as [[s0 p0]|].
+      - destruct (sessions st0 !! s0); [|done]. simpl in Eh. by rewrite Eh in Hv.
+      - simpl in Eh. by rewrite Eh in Hv. }
+    destruct (handle_err_same cfg st0 c r hint st1 o1 Hj Eh) as [E1 E2].
+    eapply (del_source_src st1); [| |by apply HD2].
+    + unfold cur_of. rewrite E2. exact Hcur0.
+    + rewrite E1. done.
+  - by intros ?%elem_of_nil.
+  - destruct (conns st !! c) as [cn|] eqn:Hc; [|by intros ?%elem_of_nil].
+    destruct (c_open cn); [|by intros ?%elem_of_nil]. cbn [negb].
+    pose proof (disconnect_deletes cfg st c x od eid I) as HD. destruct (disconnect cfg st c) as [st1 o1]. cbn [fst snd] in *.
+    intros Hin. exists c. split; [done|by apply HD].
+  - cbn [fst snd]. by intros [=]%elem_of_list_singleton.
+Qed.
+
+(* ================= the session of a member that stays: at most one transition per step ================= *)
+Lemma leave_sessions_other cfg st c sid :
+  inv st → (∀ p, cur_of st c ≠ Some (sid, p)) → sessions (leave cfg st c).1 !! sid = sessions st !! sid.
+Proof.
+  intros I Hn. destruct (leave_sessions cfg st c I) as [(cn&s&p&SS&Hc&Hcur&HS&Hp&E)|[_ E]]; [|by rewrite E].
+  assert (s ≠ sid). { intros ->. apply (Hn p). unfold cur_of. by rewrite Hc. }
+  rewrite E. case_decide; [by rewrite lookup_delete_ne|by rewrite lookup_insert_ne].
+Qed.
+
+Lemma join_trans1 cfg st c cn rid s ots hint st' outs v d sid q SS SS' :
+  inv st → nowrap st → conns st !! c = Some cn → Model.join cfg st c rid s ots hint = (st', outs, v) →
+  cur_of st d = Some (sid, q) → cur_of st' d = Some (sid, q) → (d = c → join_resp c outs = None) →
+  sessions st !! sid = Some SS → sessions st' !! sid = Some SS' → trans1 cfg SS SS'.
+Proof.
+  intros I W Hc Ej Hd Hd' Hrj HS HS'.
+  destruct (decide (d = c)) as [->|Hne].
+  { destruct (join_outcomes cfg st c cn rid s ots hint st' outs v Hc Ej) as [-> _ _|T _|n p r u _ Hjr].
+    - left. congruence.
+    - exfalso. unfold cur_of in Hd'. destruct (conns st' !! c) as [cn'|] eqn:Hc'; [|done].
+      destruct (ctrans_inv _ _ _ _ _ T Hc') as (cn0&_&Hcv). apply cv_eq in Hcv as (_&Hcur&_).
+      unfold at_conn in Hcur. rewrite decide_True in Hcur by done. simpl in *. congruence.
+    - rewrite (Hrj eq_refl) in Hjr. done. }
+  unfold Model.join in Ej. rewrite Hc in Ej. destruct (already_joined cn s) eqn:Haj.
+  { injection Ej as <- _ _. left. congruence. }
+  pose proof (leave_chain cfg st c sid I) as H1. pose proof (inv_leave cfg st c I) as I1.
+  pose proof (leave_nowrap cfg st c I W) as W1.
+  pose proof (leave_sessions_other cfg st c sid I) as Hoth.
+  assert (Hd1 : cur_of (leave cfg st c).1 d = Some (sid, q)).
+  { destruct (cur_of st c) as [[s0 p0]|] eqn:Hcc.
+    - rewrite (lp_cur _ _ _ _ _ (leave_projections cfg st c s0 p0 I Hcc)). by rewrite decide_False.
+    - by rewrite (proj1 (leave_not_joined cfg st c Hcc)). }
+  destruct (leave cfg st c) as [st1 o1]. cbn [fst snd] in *.
+  destruct (live_session _ _ (inv_live _ I1 _ _ _ Hd1)) as [SS1 HS1].
+  rewrite HS, HS1 in H1. apply chain1_inv in H1.
+  destruct s as [|n|k].
+  - destruct (create_session hint st1) as [n st2] eqn:Hcr.
+    destruct (create_session_proj _ _ _ _ I1 W1 Hcr) as (Hfresh&_).
+    destruct (create_sessions _ _ _ _ Hcr) as [E2 _].
+    assert (HS2 : sessions st2 !! n = Some (session0 (next_uuid st1 + 1))) by (rewrite E2; by rewrite lookup_insert).
+    pose proof (enter_sessions cfg st2 c rid n ots _ HS2) as E3.
+    destruct (enter cfg st2 c rid n ots) as [[st3 o2] v2]. cbn [fst snd] in *. injection Ej as <- _ _.
+    assert (n ≠ sid). { intros ->. unfold parts_of in Hfresh. by rewrite HS1 in Hfresh. }
+    rewrite E3, E2, !lookup_insert_ne in HS' by done. congruence.
+  - destruct (sessions st1 !! n) as [SSn|] eqn:HSn.
+    + pose proof (enter_sessions cfg st1 c rid n ots _ HSn) as E3.
+      destruct (enter cfg st1 c rid n ots) as [[st3 o2] v2]. cbn [fst snd] in *. injection Ej as <- _ _.
+      rewrite E3 in HS'. destruct (decide (n = sid)) as [->|Hn].
+      * rewrite lookup_insert in HS'. injection HS' as <-.
+        assert (Heq : sessions st1 !! sid = sessions st !! sid).
+        { apply Hoth. intros p Hcc. unfold cur_of in Hcc. rewrite Hc in Hcc. simpl in Hcc. unfold already_joined in Haj.
+          rewrite Hcc in Haj. by rewrite bool_decide_eq_true_2 in Haj. }
+        rewrite Heq in HS1, HSn. assert (SSn = SS) as -> by congruence. right. apply st_entered.
+      * rewrite lookup_insert_ne in HS' by done. congruence.
+    + injection Ej as <- _ _. congruence.
+  - injection Ej as <- _ _. congruence.
+Qed.
+
+Lemma handle_trans1 cfg st c cn r hint st' outs v d sid q SS SS' :
+  inv st → nowrap st → conns st !! c = Some cn → handle cfg st c r hint = (st', outs, v) →
+  cur_of st d = Some (sid, q) → cur_of st' d = Some (sid, q) → (d = c → is_join r = true → join_resp c outs = None) →
+  sessions st !! sid = Some SS → sessions st' !! sid = Some SS' → trans1 cfg SS SS'.
+Proof.
+  intros I W Hc Eh Hd Hd' Hrj HS HS'. unfold handle in Eh. rewrite Hc in Eh.
+  destruct (c_cur cn) as [[s p]|] eqn:Hcur.
+  - destruct (sessions st !! s) as [S0|] eqn:HS0; [|injection Eh as <- _ _; left; congruence].
+    destruct (is_join r) eqn:Hj.
+    { destruct r; try discriminate Hj. eapply join_trans1; try done. intros ->. by apply Hrj. }
+    destruct (session_local r) eqn:Hl.
+    + rewrite (handle_joined_sstep cfg st c cn s p S0 r hint Hl Hc HS0) in Eh. unfold apply_sstep in Eh.
+      injection Eh as <- _ _. simpl in HS'. destruct (decide (s = sid)) as [->|Hn].
+      * rewrite lookup_insert in HS'. injection HS' as <-. assert (S0 = SS) as -> by congruence.
+        right. apply st_local; [done|]. by destruct (inv_member st c cn sid p SS I Hc Hcur HS).
+      * rewrite lookup_insert_ne in HS' by done. left. congruence.
+    + pose proof (handle_joined_other cfg st c cn s p S0 r hint Hl Hj) as E. rewrite Eh in E. simpl in E.
+      left. congruence.
+  - destruct (is_join r) eqn:Hj.
+    { destruct r; try discriminate Hj. eapply join_trans1; try done. intros ->. by apply Hrj. }
+    pose proof (handle_unjoined_other cfg st c cn r hint Hj) as E. rewrite Eh in E. simpl in E. left. congruence.
+Qed.
+
+Lemma step_trans1 cfg st o k d sid q SS SS' :
+  inv st → bounded k st → k + 1 < two32 →
+  let e := ev_of st o (step cfg st o) in
+  cur_of st d = Some (sid, q) → cur_of (step cfg st o).1.1 d = Some (sid, q) →
+  (actor e = Some d → rejoined e d = false) →
+  sessions st !! sid = Some SS → sessions (step cfg st o).1.1 !! sid = Some SS' → trans1 cfg SS SS'.
+Proof.
+  intros I B Hk e Hd Hd' Hrj HS HS'. pose proof (bounded_nowrap _ _ B Hk) as W.
+  assert (Hsame : sessions (step cfg st o).1.1 = sessions st → trans1 cfg SS SS').
+  { intros E. left. rewrite E in HS'. congruence. }
+  assert (Hdisc : ∀ st0 c, inv st0 → sessions st0 = sessions st →
+     sessions (step cfg st o).1.1 = sessions (disconnect cfg st0 c).1 → trans1 cfg SS SS').
+  { intros st0 c I0 E0 E. pose proof (disconnect_chain cfg st0 c sid I0) as H. rewrite <- E, E0, HS, HS' in H.
+    by apply chain1_inv. }
+  destruct o as [c|c r|c hint|s|c|]; unfold e, ev_of in *; cbn [step consumed] in *.
+  - apply Hsame. by destruct (conns st !! c).
+  - unfold dispatch in *. destruct (conns st !! c) as [cn|] eqn:Hc; [|by apply Hsame].
+    destruct (c_open cn); [|by apply Hsame]. cbn [negb] in *.
+    destruct r; try (by apply Hsame). destruct (ty =? 14); [|by apply Hsame].
+    apply (Hdisc st c I eq_refl). by destruct (disconnect cfg st c).
+  - destruct (conns st !! c) as [cn|] eqn:Hc; [|by apply Hsame].
+    destruct (c_open cn) eqn:Ho; [|by apply Hsame]. cbn [negb] in *.
+    destruct (c_queue cn) as [|r q0] eqn:Hq; [by apply Hsame|]. cbn [head] in *.
+    set (st0 := upd_conn c (set_queue q0) st) in *.
+    assert (Hs0 : same_mem st st0) by (apply same_mem_upd_conn; by intros []).
+    assert (I0 : inv st0) by by eapply inv_same_mem.
+    assert (B0 : bounded k st0) by by eapply bounded_same_mem.
+    assert (W0 : nowrap st0) by by eapply bounded_nowrap.
+    assert (Hc0 : conns st0 !! c = Some (set_queue q0 cn)) by (unfold st0; by rewrite conns_upd_conn_eq, Hc).
+    assert (Hd0 : cur_of st0 d = Some (sid, q)) by (destruct Hs0 as (H1&_); by rewrite H1).
+    assert (Ho0 : open_of st0 c = Some true).
+    { destruct Hs0 as (_&H2&_). rewrite H2. unfold open_of. by rewrite Hc; simpl; rewrite Ho. }
+    destruct (handle_inv cfg st0 c r hint k I0 B0 Hk Ho0) as [I1 _].
+    destruct (handle cfg st0 c r hint) as [[st1 o1] v] eqn:Eh. cbn [fst snd] in *.
+    assert (Hnorm : v ≠ VErr → cur_of st1 d = Some (sid, q) → sessions st1 !! sid = Some SS' →
+                    (actor {| ev_op := OStep c hint; ev_req := Some r; ev_outs := o1; ev_verdict := v |} = Some d →
+                     rejoined {| ev_op := OStep c hint; ev_req := Some r; ev_outs := o1; ev_verdict := v |} d = false) →
+                    trans1 cfg SS SS').
+    { intros _ Hd1 HS1 Hrj1. eapply (handle_trans1 cfg st0 c _ r hint st1 o1 v d sid q); try done.
+      intros -> Hj. specialize (Hrj1 eq_refl). rewrite rejoined_step in Hrj1. destruct r; try discriminate Hj.
+      rewrite N.eqb_refl in Hrj1. simpl in Hrj1. by destruct (join_resp c o1). }
+    destruct v; cbn [fst snd] in *; try (by apply Hnorm).
+    assert (Hj : is_join r = false).
+    { destruct (is_join r) eqn:Hj; [|done]. exfalso. destruct r; try discriminate Hj.
+      unfold handle in Eh. rewrite Hc0 in Eh. pose proof (join_verdict cfg st0 c _ rid sid0 ots hint Hc0) as Hv.
+      destruct (c_cur (set_queue q0 cn)) as [[s0 p0]|].
+      - destruct (sessions st0 !! s0); [|done]. simpl in Eh. by rewrite Eh in Hv.
+      - simpl in Eh. by rewrite Eh in Hv. }
+    destruct (handle_err_same cfg st0 c r hint st1 o1 Hj Eh) as [E1 E2].
+    apply (Hdisc st1 c I1); [by rewrite E1|]. by destruct (disconnect cfg st1 c).
+  - apply Hsame. apply tick_sessions.
+  - destruct (conns st !! c) as [cn|] eqn:Hc; [|by apply Hsame].
+    destruct (c_open cn); [|by apply Hsame]. cbn [negb] in *.
+    apply (Hdisc st c I eq_refl). by destruct (disconnect cfg st c).
+  - by apply Hsame.
+Qed.
+
+(* ================= the spec's membership table only changes at the acting connection ================= *)
+Lemma depart_mem_other sp c d : d ≠ c → sp_mem (depart sp c) !! d = sp_mem sp !! d.
+Proof. intros H. destruct (depart_mproj sp c) as (->&_). by rewrite lookup_delete_ne. Qed.
+Lemma spec_step_mem_other sp e d : actor e ≠ Some d → sp_mem (spec_step sp e) !! d = sp_mem sp !! d.
+Proof.
+  unfold actor, spec_step. destruct (ev_op e) as [c|c r|c hint|sid|c|]; try done; intros Hne.
+  - destruct (ev_verdict e); try done; apply depart_mem_other; congruence.
+  - assert (Hdc : d ≠ c) by congruence.
+    destruct (ev_verdict e); try (by apply depart_mem_other).
+    all: destruct (ev_req e) as [r|]; [|done].
+    all: assert (Hreq : sp_mem (match sp_mem sp !! c with Some (sid, p) => spec_request sp c sid p r (ev_outs e) | None => sp end) !! d
+                        = sp_mem sp !! d) by (destruct (sp_mem sp !! c) as [[s9 p9]|]; [by rewrite sp_mem_spec_request|done]).
+    all: destruct r; try exact Hreq.
+    all: destruct (join_resp c (ev_outs e)) as [[[[r' n] u] p']|];
+      [simpl; rewrite lookup_insert_ne by done; by apply depart_mem_other
+      |destruct (has_error c E_NOT_FOUND (ev_outs e)); [by apply depart_mem_other|done]].
+  - apply depart_mem_other. congruence.
+Qed.
+
+(* ================= which steps relay poses ================= *)
+Lemma lat_req_noposes cfg st c r hint st' o v :
+  is_lat_req r = true → handle cfg st c r hint = (st', o, v) → qs is_poseb o.
+Proof.
+  intros Hl. unfold handle. destruct (conns st !! c) as [cn|]; [|by intros [= _ <- _]; constructor].
+  destruct (c_cur cn) as [[sid p]|].
+  - destruct (sessions st !! sid) as [SS|]; [|by intros [= _ <- _]; constructor].
+    destruct r; try discriminate Hl; simpl; unfold on_ping, send_ping; intros H; repeat case_match; simplify_eq;
+      repeat constructor.
+  - destruct r; try discriminate Hl; simpl; intros [= _ <- _]; repeat constructor.
+Qed.
+
+Lemma step_poses cfg st o :
+  qs is_poseb (step cfg st o).1.2 ∨
+  ∃ sid SS eid, sessions st !! sid = Some SS ∧ is_Some (s_ents SS !! eid) ∧
+    Forall (λ d : delivery, ∃ ots ps q, snd d = MPoseB ots eid ps ∧ s_parts SS !! q = Some (fst d)) (step cfg st o).1.2.
+Proof.
+  destruct (stepped (ev_of st o (step cfg st o))) as [[c r]|] eqn:Hst.
+  2:{ left. apply (qs_step is_poseb is_poseb_exc). intros c r. by rewrite Hst. }
+  destruct (exc_req r) eqn:Hx.
+  2:{ left. apply (qs_step is_poseb is_poseb_exc). intros c' r'. rewrite Hst. by intros [= <- <-]. }
+  destruct (step_stepped cfg st o c _ Hst) as (hint&cn&q&st1&o1&v&->&Hc&Ho&Hq&Eh&Hv&Es). rewrite Es. cbn [fst snd].
+  destruct (is_lat_req r) eqn:Hl; [left; by eapply lat_req_noposes|].
+  destruct r; try discriminate Hx; try discriminate Hl.
+  unfold handle in Eh. destruct (conns (upd_conn c (set_queue q) st) !! c) as [cn0|]; [|injection Eh as <- <- <-; left; constructor].
+  destruct (c_cur cn0) as [[sid p0]|].
+  - change (sessions (upd_conn c (set_queue q) st)) with (sessions st) in Eh.
+    destruct (sessions st !! sid) as [SS|] eqn:HS; [|injection Eh as <- <- <-; left; constructor].
+    simpl in Eh. destruct (s_ents SS !! eid) as [ent|] eqn:He; [|injection Eh as <- <- <-; left; constructor].
+    destruct p as [ps|]; [|injection Eh as <- <- <-; left; constructor].
+    destruct (negb (e_owner ent =? p0)); [injection Eh as <- <- <-; left; constructor|].
+    destruct (flag_on cfg F_POSE_B); [injection Eh as <- <- <-; left; constructor|].
+    injection Eh as <- <- <-. right. exists sid, SS, eid. split; [done|]. split; [by rewrite He|].
+    apply Forall_forall. intros [x m] Hin. apply broadcast_spec in Hin as (->&q'&Hq'&_). simpl in Hq'. by exists ots, ps, q'.
+  - simpl in Eh. injection Eh as <- <- <-. left. constructor.
+Qed.
+
+(* ================= the u_deleted relation ================= *)
+Definition Rd (st : state) (ud : gmap N (gset N)) : Prop :=
+  ∀ d sid q SS eid, cur_of st d = Some (sid, q) → sessions st !! sid = Some SS →
+    eid ∈ default ∅ (ud !! d) → s_ents SS !! eid = None ∧ eid ≤ s_egen SS.
+
+Lemma Rd_state0 : Rd state0 ∅.
+Proof. intros d sid q SS eid. unfold cur_of. simpl. by rewrite lookup_empty. Qed.
+
+Lemma c11_deleted_ok cfg st o k kw sp s i :
+  inv st → bounded k st → k + 1 < two32 → reg st → swf cfg kw st → kw + 1 < two32 →
+  refines_mem sp st → Rd st (u_deleted s) →
+  let e := ev_of st o (step cfg st o) in
+  (c11_deliveries i s (ev_outs e)).2 = [] ∧
+  Rd (step cfg st o).1.1 (u_deleted (P_C11_event cfg i sp (spec_step sp e) s e).1).
+Proof.
+  intros I B Hk G Wf Hkw R RD e.
+  destruct (step_sim cfg st o k sp i I B Hk G R) as [R' _]. fold e in R'.
+  split.
+  - (* 1104 *)
+    unfold e, ev_of. cbn [ev_outs].
+    destruct (step_poses cfg st o) as [Hq|(sid&SS&eid&HS&Hent&Hall)]; [by apply c11_deliveries_noposes|].
+    rewrite c11_deliveries_poses; [done|]. eapply Forall_impl; [exact Hall|].
+    intros [x m] (ots&ps&q&Hm&Hq). exists ots, eid, ps. split; [done|]. cbn [fst snd] in *. intros Hin.
+    assert (Hps : parts_of st sid = Some (s_parts SS)) by (unfold parts_of; by rewrite HS).
+    apply (inv_parts _ I sid _ q x Hps) in Hq.
+    destruct (RD x sid q SS eid Hq HS Hin) as [Hnone _]. rewrite Hnone in Hent. by destruct Hent.
+  - rewrite P_C11_event_deleted. intros d sid q SS' eid Hd' HS' Hin.
+    set (s1 := (c11_deliveries i s (ev_outs e)).1) in *.
+    (* not reset: the observer's membership is unchanged *)
+    assert (Hkeep : eid ∈ default ∅ (u_deleted s1 !! d) ∧ cur_of st d = Some (sid, q) ∧
+                    (actor e = Some d → rejoined e d = false)).
+    { unfold c11_reset in Hin. destruct (actor e) as [a|] eqn:Ha.
+      - destruct (decide (a = d)) as [->|Hne].
+        + destruct (mem_changed sp (spec_step sp e) e d) eqn:Hm; cbn [negb] in Hin.
+          { cbn [u_deleted] in Hin. rewrite lookup_delete in Hin. simpl in Hin. set_solver. }
+          unfold mem_changed in Hm. apply orb_false_iff in Hm as [Hm1 Hm2]. apply negb_false_iff, bool_decide_eq_true in Hm1.
+          split; [done|]. split; [|done]. rewrite <- (rm_mem _ _ R), Hm1, (rm_mem _ _ R'). exact Hd'.
+        + assert (Hin' : eid ∈ default ∅ (u_deleted s1 !! d)).
+          { destruct (negb _); [done|]. cbn [u_deleted] in Hin. by rewrite lookup_delete_ne in Hin. }
+          split; [done|]. split; [|intros [= ?]; done].
+          rewrite <- (rm_mem _ _ R). rewrite <- (spec_step_mem_other sp e d) by (rewrite Ha; congruence).
+          rewrite (rm_mem _ _ R'). exact Hd'.
+      - split; [done|]. split; [|done].
+        rewrite <- (rm_mem _ _ R). rewrite <- (spec_step_mem_other sp e d) by (by rewrite Ha).
+        rewrite (rm_mem _ _ R'). exact Hd'. }
+    destruct Hkeep as (Hin1&Hd&Hrj).
+    destruct (live_session _ _ (inv_live _ I _ _ _ Hd)) as [SS HS].
+    pose proof (step_trans1 cfg st o k d sid q SS SS' I B Hk Hd Hd' Hrj HS HS') as T.
+    destruct (trans1_keeps cfg kw SS SS' Hkw (Wf sid SS HS) T) as [Kg Ke].
+    apply c11_deliveries_deleted in Hin1 as [Hold|(ots&Hnew)].
+    + destruct (RD d sid q SS eid Hd HS Hold) as [Hn Hle]. split; [by apply Ke|lia].
+    + destruct (step_deletes cfg st o k d ots eid I B Hk Hnew) as (c&_&[sid0 p0 q0 SS0 SS0' D1 D2 D3 D4 D5 D6 D7]).
+      assert (Hps : parts_of st sid0 = Some (s_parts SS0)) by (unfold parts_of; by rewrite D2).
+      apply (inv_parts _ I sid0 _ q0 d Hps) in D3. rewrite Hd in D3. injection D3 as <- <-.
+      assert (SS0 = SS) as -> by congruence. assert (SS0' = SS') as -> by congruence.
+      split; [done|]. destruct D5 as [ent Hent]. destruct (wf_ents _ _ _ (Wf sid SS HS) eid ent Hent) as [[_ Hle] _]. lia.
+Qed.
+
+(* ================= every history: all three relations, and the predicate is silent ================= *)
+Theorem model_C11_rel cfg h :
+  short h →
+  P_C11 cfg (run cfg h) = [] ∧
+  Rs (final cfg h) (u_last (c11_state cfg (run cfg h))) (u_expect (c11_state cfg (run cfg h))) ∧
+  Rd (final cfg h) (u_deleted (c11_state cfg (run cfg h))).
+Proof.
+  induction h as [|o h IH] using rev_ind; intros Hs.
+  { split; [done|]. split; [apply Rs_state0|apply Rd_state0]. }
+  apply short_snoc in Hs as [Hs Hb]. destruct (IH Hs) as (IH1&IH2&IH3).
+  assert (Hlen : N.of_nat (length h) < two32) by (unfold short in Hs; lia).
+  destruct (reachable_inv cfg h state0 0 inv_state0 bounded_state0) as [I B]; [lia|].
+  destruct (reachable_reg cfg h Hlen) as [G _].
+  pose proof (refinement_mem cfg h Hs) as R. pose proof (refinement_ents cfg h Hs) as E.
+  pose proof (reachable_own cfg h Hs) as O. pose proof (reachable_frames cfg h Hlen) as F.
+  pose proof (reachable_swf cfg h Hs) as Wf.
+  unfold P_C11, c11_state in *.
+  change (λ i sp sp' s e, let '(s', v) := P_C11_event cfg i sp sp' s e in (s', v ++ P_C11_join cfg i sp sp' e ++ bad_msgs i 1100 e))
+    with (c11_f cfg) in *.
+  rewrite run_snoc, xscan_snoc, xstate_snoc, final_snoc, IH1. cbn [app].
+  change (fold_left spec_step (run cfg h) spec0) with (spec_after (run cfg h)).
+  set (sp := spec_after (run cfg h)) in *. set (st := final cfg h) in *. set (s := xstate (c11_f cfg) 0 spec0 c11_0 (run cfg h)) in *.
+  set (e := ev_of st o (step cfg st o)).
+  destruct (c11_rest_ok cfg st o (0 + N.of_nat (length h)) sp s (0 + length (run cfg h)) I B ltac:(lia) G O F R E IH2) as (C1&C2&C3&C4).
+  destruct (c11_deleted_ok cfg st o (0 + N.of_nat (length h)) (4 * N.of_nat (length h)) sp s (0 + length (run cfg h)) I B ltac:(lia) G Wf
+              ltac:(unfold short in Hs; lia) R IH3) as (C5&C6).
+  fold e in C1, C2, C3, C4, C5, C6.
+  pose proof (P_C11_event_viol cfg (0 + length (run cfg h)) sp (spec_step sp e) s e) as Hv. rewrite C1, C5 in Hv.
+  unfold c11_f. destruct (P_C11_event cfg (0 + length (run cfg h)) sp (spec_step sp e) s e) as [s' v]. cbn [fst snd] in *.
+  split; [|by split]. by rewrite Hv, C2, C3.
+Qed.
+
+Theorem model_passes_C11 cfg h : short h → P_C11 cfg (run cfg h) = [].
+Proof. intros Hs. by destruct (model_C11_rel cfg h Hs) as (?&_). Qed.
